@@ -66,7 +66,7 @@ def P(level="exploration", q=50, t=500, workloads="", assumptions=None, **kw):
 PROPS = {
     "C01": P(workloads="mq-conc steady, view, quiesce, teardown-orders, handle-churn, last-sender, add-stream-sole (plain and futures handles, every receive entry point); Miri slice"),
     "C02": P(workloads="mq-conc steady, view, quiesce, last-sender, add-stream-sole, handle-churn with multi-producer stalls (claimed-unpublished slots); Miri slice"),
-    "C03": P(workloads="mq-conc steady, view, remove-stream, wrap-slow-clone, add-stream-sole with slow consumers and stalls in the writer's scan; quiescent fill counts; Miri slice"),
+    "C03": P(workloads="mq-conc steady, view, remove-stream, wrap-slow-clone, add-stream-sole, no-receiver (every receiver leaving at once while producers keep sending) with slow consumers and stalls in the writer's scan; quiescent fill counts; Miri slice"),
     "C04": P(workloads="mq-conc wrap-slow-clone, view, steady and handle-churn (clones used by a helper thread and dropped while the original keeps receiving) with stalls inside clone / view closure; AddressSanitizer shards; Miri with the data-race detector (broadcast, mpmc single consumer)"),
     "C05": P(q=100, workloads="mq-seq with every teardown permutation, mq-conc teardown-orders / no-receiver / steady, AddressSanitizer shards, Miri with leak checking; one shard exercises the open finding (two streams on a move-out queue)"),
     "C06": P(workloads="quiescent probe after every mq-conc family; dedicated quiesce family"),
@@ -110,7 +110,7 @@ def jobs_for(prop, tier, seed):
                   extra=[["--policy", "stall"], [], ["--policy", "yield"]])
         J.append(miri(prop, seed, "steady", ["conc", "--families", "steady", "--runs", "2"], ms, mt, {"*": "C02,C04,C16"}, no_race=True, base=7))
     elif prop == "C03":
-        J += conc(prop, seed, ["steady", "view", "remove-stream", "wrap-slow-clone", "add-stream-sole"], n, s)
+        J += conc(prop, seed, ["steady", "view", "remove-stream", "wrap-slow-clone", "add-stream-sole", "no-receiver"], n, s)
         J.append(miri(prop, seed, "steady", ["conc", "--families", "steady,wrap-slow-clone", "--runs", "2", "--fl", "broadcast"], ms, mt, {"*": "C03,C04,C16"}, base=11))
     elif prop == "C04":
         J += conc(prop, seed, ["wrap-slow-clone", "view", "wrap-slow-clone", "steady", "handle-churn"], n - 8, s,
